@@ -18,7 +18,7 @@ Lemma tstep_unfaulted t th s f b th' s' e a :
   tstep t th s f b = Some (th', s', e) -> unfaulted_ok th'.
 Proof.
   intros Hp Hwf Hu Hrw H. destruct th as [c p cu ca fl ? ? ? ? ? ?]. unfold twf, unfaulted_ok in *; simpl in *.
-  rewrite Hp in Hwf. destruct Hwf as [-> Hm]. destruct p; simpl in Hm; try discriminate.
+  rewrite Hp in Hwf. destruct Hwf as ([-> Hm] & Hpc & _). destruct p; simpl in Hm, Hpc; try discriminate.
   all: tstep_full H. all: inv_some H; simpl.
   all: try (intros Hf; apply orb_false_iff in Hf; destruct Hf as [Hf1 Hf2]; try discriminate; subst;
             specialize (Hu eq_refl); destruct Hu as [-> Hu]; simpl in *; subst; auto; try discriminate; try tauto;
